@@ -63,16 +63,20 @@ def timing_cell(P, A):
     ids = [A['s%d' % i] for i in range(N)]
     if P.get('blank_id') is not None:
         ids[P['blank_id']] = None          # <storyID/>: offsets are keyed by ID, a blank one is still a story
-    sd = [A.get('sd%d' % i, 0) for i in range(N)]
-    tt = [A.get('tt%d' % i, 0) for i in range(N)]
-    mt_ = [A.get('mt%d' % i, 0) for i in range(N)]
+    # concrete anchors may spell a number the way a document can ('2.5e1', '.5', '+3', ' 7 '): the document gets
+    # the spelling, the specification its value
+    val = lambda x: float(x) if isinstance(x, str) else x
+    sd_d = [A.get('sd%d' % i, 0) for i in range(N)]
+    tt_d = [A.get('tt%d' % i, 0) for i in range(N)]
+    mt_d = [A.get('mt%d' % i, 0) for i in range(N)]
+    sd, tt, mt_ = [val(x) for x in sd_d], [val(x) for x in tt_d], [val(x) for x in mt_d]
     started = P.get('started') or [None] * N
     ended = P.get('ended') or [None] * N
     stories = []
     for i in range(N):
         st = STAMPS[started[i]] if started[i] is not None else None
         en = STAMPS[ended[i]] if ended[i] is not None else None
-        tb_ = timing(variants[i], sd[i], tt[i], mt_[i], st, en)
+        tb_ = timing(variants[i], sd_d[i], tt_d[i], mt_d[i], st, en)
         if P.get('meta_last'):
             # the layout a roStorySend leaves behind: an item with its own payload first, the story's block last
             own = B.item('it%d' % i, note_text='n', extra=B.decoys('zz', 'yy'))
@@ -102,8 +106,9 @@ def timing_cell(P, A):
     if sig is None and r is not None:
         # history: the accessors have been read; now the r-th story is re-sent with a new duration
         # (same ID, same position) and everything must be consistent again
-        nd = A['nd']
-        o = B.merge(ro, M.story_send(ids[order[r]], body=[T('p', 'again')], pre=[B.timing_block(dur=num(nd))]))
+        nd_d = A['nd']
+        nd = val(nd_d)
+        o = B.merge(ro, M.story_send(ids[order[r]], body=[T('p', 'again')], pre=[B.timing_block(dur=num(nd_d))]))
         if o.raised or o.warns:
             B.note(sig='resend-failed', observed=B.conc(o.exc))
             return False
@@ -230,8 +235,10 @@ def accessor_cell(P, A):
             body.append(B.item('second'))
         body.append(T('p', None))
         st = STAMPS[P.get('ststamp', 1)] if P.get('started', [None] * N)[i] else None
+        # replays / anchors: the numbers are spelt the ways a document can spell them
+        sp = (lambda v, j: ['%d', '%d.0', '%de0', '+%d', ' %d ', '%d.'][(i + j) % 6] % v) if B.Ctx.replay else (lambda v, j: v)
         stories.append(E('story', T('storyID', ids[i]), opt(has_slug, T('storySlug', slug)),
-                         timing(variants[i], 10 * i, 3 * i, 4 * i, started=st), *body))
+                         timing(variants[i], sp(10 * i, 0), sp(3 * i, 1), sp(4 * i, 2), started=st), *body))
         spec.append({'id': ids[i], 'slug': slug if has_slug else None,
                      'items': [iid] + (['second'] if has_item2 else []),
                      'item1': {'slug': slug if f('isl%d' % i) else None, 'obj': obj if f('io%d' % i) else None,
